@@ -8,10 +8,12 @@ package main
 
 import (
 	"bytes"
-	"time"
 	"encoding/hex"
 	"fmt"
+	"io"
 	"math/big"
+	"testing/iotest"
+	"time"
 
 	"go.dedis.ch/kyber/v4"
 	kenc "go.dedis.ch/kyber/v4/util/encoding"
@@ -67,6 +69,14 @@ func encChecksPoint(g *groups.G, v kyber.Point) []string {
 	if err != nil || n != len(b) || !u.Equal(v) {
 		f = append(f, fmt.Sprintf("UnmarshalFrom: n=%d err=%v", n, err))
 	}
+	// a stream may deliver an element in pieces (pipes, sockets, buffered readers at a buffer boundary)
+	for name, rd := range map[string]io.Reader{"one byte per Read": iotest.OneByteReader(bytes.NewReader(b)), "half reads": iotest.HalfReader(bytes.NewReader(b)),
+		"data together with EOF": iotest.DataErrReader(bytes.NewReader(b))} {
+		pu := G.Point()
+		if n, err := pu.UnmarshalFrom(rd); err != nil || n != len(b) || !pu.Equal(v) {
+			f = append(f, fmt.Sprintf("UnmarshalFrom a reader delivering %s: n=%d err=%v", name, n, err))
+		}
+	}
 	hs, err := kenc.PointToStringHex(G, v)
 	if err != nil || hs != hex.EncodeToString(b) {
 		f = append(f, "PointToStringHex differs")
@@ -115,6 +125,13 @@ func encChecksScalar(g *groups.G, v kyber.Scalar) []string {
 	n, err = u.UnmarshalFrom(bytes.NewReader(append(append([]byte{}, b...), 0xAA)))
 	if err != nil || n != len(b) || !u.Equal(v) {
 		f = append(f, "UnmarshalFrom differs")
+	}
+	for name, rd := range map[string]io.Reader{"one byte per Read": iotest.OneByteReader(bytes.NewReader(b)), "half reads": iotest.HalfReader(bytes.NewReader(b)),
+		"data together with EOF": iotest.DataErrReader(bytes.NewReader(b))} {
+		su := G.Scalar()
+		if n, err := su.UnmarshalFrom(rd); err != nil || n != len(b) || !su.Equal(v) {
+			f = append(f, fmt.Sprintf("UnmarshalFrom a reader delivering %s: n=%d err=%v", name, n, err))
+		}
 	}
 	hs, err := kenc.ScalarToStringHex(G, v)
 	if err != nil || hs != hex.EncodeToString(b) {
